@@ -71,11 +71,13 @@ func (c *c20) feeFloor(n int) {
 		var chainParts, nodeParts []string
 		chainP, nodeP := map[string]math.LegacyDec{}, map[string]math.LegacyDec{}
 		allAbsent := rng.Chance(8)
+		rawZeros := rng.Chance(15)
+		noChain := rawZeros && rng.Chance(70) // explicit zero entries only survive when no chain price is merged in
 		for _, d := range c20Denoms[:nd] {
 			if allAbsent {
 				break
 			}
-			if s := mon.Pick(rng, c20PriceStrings); s != "" {
+			if s := mon.Pick(rng, c20PriceStrings); s != "" && !noChain {
 				chainParts = append(chainParts, s+d)
 				chainP[d] = math.LegacyMustNewDecFromStr(s)
 			}
@@ -91,6 +93,19 @@ func (c *c20) feeFloor(n int) {
 		nodeCoins, err := sdk.ParseDecCoins(strings.Join(nodeParts, ","))
 		if err != nil {
 			panic(err)
+		}
+		if rawZeros {
+			// a price vector set programmatically may carry explicit zero entries next to positive ones (the repository's
+			// own ante test builds such vectors); a zero floor is no floor
+			raw := sdk.DecCoins{}
+			for _, d := range c20Denoms[:nd] {
+				if v, ok := nodeP[d]; ok {
+					raw = append(raw, sdk.DecCoin{Denom: d, Amount: v})
+				} else if rng.Bool() {
+					raw = append(raw, sdk.DecCoin{Denom: d, Amount: math.LegacyZeroDec()})
+				}
+			}
+			nodeCoins = raw.Sort()
 		}
 		br := c.e.Branch()
 		p, _ := br.L2.K.GetParams(br.L2.Ctx)
